@@ -25,6 +25,11 @@ CLAIMED = {
          "Every sequence of length <= 3 over {partition, partition_oneway, repair, repair_oneway} x {(A,B),(B,A)} was executed at several placements, latencies and fail/repair rates, and random longer sequences (from the Sim handle and from host code, by name/IP/regex, 2-4 hosts, UDP + TCP + connect probes): no message sent while its direction was explicitly cut, or in flight (per Sim::links) when the cut was imposed, was ever received, under every fail/repair rate; with fail_rate = 0 every other message was received exactly once and connects on clear directions succeeded.",
          "In-flight sets are read from Sim::links immediately before Sim-side calls and computed from the fixed latency for host-side calls; ambiguous messages under ranged latency + host-side calls are neither required nor forbidden; hold/release excluded as documented.",
          "DESIGN.md §6 C03"),
+ "C08": ("fault_enumeration",
+         "bounded-exhaustive manual delivery of every subset x permutation of <= 4 held messages plus property-based random hold/release schedules, checked against a held-set model over an execution-ordered event log and an exact model of the links iterator",
+         "For every traffic shape with <= 4 held messages every subset and permutation was delivered by hand through Sim::links, and random hold/release schedules (Sim-side and host-side calls by name/IP/regex, repeated cycles, UDP + TCP + connect probes, 2-4 hosts) were run: no held message (sent while held or listed by Sim::links at the hold) was received while held, each was received exactly once within 2 steps of its release or manual delivery and in send order per direction, links not held kept delivering, connects blocked across the hold and completed after it, and with a fixed latency the iterator listed exactly the model's in-flight set after every step.",
+         "fail_rate 0; partitions not combined with holds; for host-side holds under ranged latency ambiguous messages are neither required nor forbidden; messages released by a host-side call may or may not still be listed at the end of that step.",
+         "DESIGN.md §6 C08"),
 }
 
 PENDING_REASON = "check not built yet in this round (planned, see DESIGN.md §6); not claimed until its check exists and has been shown silent on the unchanged tree"
